@@ -3,18 +3,22 @@ import ZvbiModel.Generated.Locks
 /-!
 # Locks - the instance: zvbi's documented roles (table generated from the current source)
 
-Hand-written part of the instance: the lock order, which fields each mutex protects,
-and the *known* exceptions (genuine defects of the unchanged tree, see NOTES/C20.md):
+Hand-written part of the instance: the lock order and which fields each mutex protects.
 
-* K1  `vbi_decode` resets the caption decoder (`vbi_chsw_reset` -> `vbi_caption_channel_switched`)
+No exception list is needed any more: the two defects the first delivery had to excuse are repaired
+in the source (commits c1561e0, f194102), and `Props/C20.lean` proves the discipline with
+`noKnown` / `noSite`.  The predicates that described them are kept because the `_modulo_known`
+corollaries and the driver's report mention them; on the current table the sites they describe are
+bracketed like all others:
+
+* K1  `vbi_decode` reset the caption decoder (`vbi_chsw_reset` -> `vbi_caption_channel_switched`)
       without taking `cc.mutex`, racing with `vbi_fetch_cc_page` in another thread;
-* K2  event callbacks are delivered while `cc.mutex` is held on two paths
+* K2  event callbacks were delivered while `cc.mutex` was held on two paths
       (ITV trigger from caption text: `itv_separator` -> `vbi_atvef_trigger` -> `vbi_send_event`;
       XDS network change: `xds_decoder` -> `vbi_chsw_reset` -> `vbi_send_event`), so a handler
-      calling `vbi_fetch_cc_page` there deadlocks on its own thread.
+      calling `vbi_fetch_cc_page` there dead-locked on its own thread.
 
-The predicates name functions, not node numbers, so they survive regeneration; when the
-defects are repaired the tables simply contain no such site and the theorems still hold.
+The predicates name functions, not node numbers, so they survive regeneration.
 -/
 namespace Zvbi.Locks.Instance
 open Zvbi.Locks Zvbi.Generated.Locks
